@@ -1,6 +1,7 @@
 import Invoke.Lemmas.RunnerTimer
 import Invoke.Lemmas.RunnerPrompt
 import Invoke.Lemmas.RunnerReuse
+import Invoke.Lemmas.RunnerJoined
 /-! # C14 — a timed-out command is killed and reported promptly; a timely one is left alone
 
 Over EVERY schedule of the runner transition system (timer expiry, kill, process exit, reads,
@@ -279,5 +280,20 @@ theorem reused_runner_times_out_like_fresh :
     (∀ r ∈ Generated.carriedOver, RunnerReuse.rowInert r = true) ∧
     (∀ r ∈ Generated.overrunOutcomes, RunnerReuse.overrunRowOk r = true) ∧ 12 ≤ Generated.overrunOutcomes.length := by
   decide
+
+/-! ## later joins of the same run -/
+
+/-- a run that was NOT reported as timed out by its first join is not reported as timed out by a later join either,
+    and one that was stays so - along every schedule of the second pass (the "disarmed as timely" flag is latched;
+    corollary of the second-join invariant, `Lemmas/RunnerRejoin.lean` / `Lemmas/RunnerJoined.lean`) -/
+theorem timed_out_verdict_stable_across_joins (hi ht w p e : Bool) (o er : List Chunk) (ins : List InItem) (ho : Bool)
+    (n : Nat) (asy : Bool) (evs₁ evs₂ : List Ev)
+    (hdone : (run (S.init hi ht w p e o er ins ho false n asy) evs₁).mainPc = .done)
+    (h2 : (run (rejoin (run (S.init hi ht w p e o er ins ho false n asy) evs₁)) evs₂).mainPc = .done) (rc : Int) :
+    (run (rejoin (run (S.init hi ht w p e o er ins ho false n asy) evs₁)) evs₂).outcome = .timedOut rc ↔
+      (run (S.init hi ht w p e o er ins ho false n asy) evs₁).outcome = .timedOut rc := by
+  have hj := joined_reachable hi ht w p e o er ins ho n asy evs₁ hdone
+  have h := (rj_run _ _ evs₂ (rj_rejoin _ hj)).dec (by rw [h2]; rfl)
+  rw [h]
 
 end Inv
